@@ -84,5 +84,10 @@ fixed("C13","fatal/panic_close_of_closed_channel/.(*Server).serveTCP.func1","66a
 # ---- C15
 fixed("C15","C15/fault-hidden/rcode/axfr/plain","4093943","an incoming AXFR ignored an error RCODE in every envelope but the first and reported the transfer as complete and error-free")
 
+
+# ---- C05: RDATA-less records read from text (found in round 12 from a sub-agent's remark about the clean checkout)
+for t in "A AAAA AFSDB CAA CNAME DNAME GPOS HIP HTTPS KX L32 LOC LP MB MD MF MG MINFO MR MX NAPTR NS NSAP-PTR NSEC NSEC3 NULL NXNAME NXT PTR PX RP RRSIG RT SIG SOA SRV SVCB TALINK".split():
+    known("C05","C05/rdataless-text-not-rereadable/"+t,"the entry `name ttl class %s` (no RDATA: the RFC 2136 prerequisite / deletion form, which the zone parser accepts as the last entry of its input) is read as a %s record without RDATA, but the typed struct cannot say \"no RDATA\": String() prints a trailing tab followed by nothing or by the zero values of the fields, which the parser refuses or reads as another record (same root as C01/rdataless-repack)"%(t,t))
+
 json.dump({"comment":"Committed list of genuine defects of the pinned miekg/dns tree. status=known suppresses exactly the listed key (printed as KNOWN-FINDING); status=fixed suppresses nothing. Never written at run time; regenerate with tools/mkfindings.py.","findings":F},open('/verif/known_findings.json','w'),indent=1)
 print(len(F),"findings")
